@@ -322,28 +322,36 @@ theorem defeatedCore_total (hA : LawfulArith A) {s : St α} (h : Inv A s) (cids 
   rw [(foldSetZero_frame A cids _).2.1, hsv, hvs]
   linarith
 
+/-- the state of an exclusion transfer just before it is logged -/
+theorem LInv.defeatedCore (hA : LawfulArith A) (u : α) {s : St α} (h : Inv A s) (hl : LInv A u s)
+    (cids : List Nat) (hnd : cids.Nodup)
+    (hx : ∀ cid ∈ cids, ∃ x ∈ s.cands, x.cid = cid ∧ ¬ x.inScope ∧ x.st ≠ .hopeful ∧ x.vote = s.tally A cid) :
+    LInv A u (Droop.defeatedCore A s cids) ∧ (Droop.defeatedCore A s cids).method = .wigm := by
+  have htot := defeatedCore_total A hA h cids hnd hx
+  have hfr := foldSetZero_frame A cids (transferAll A s cids id)
+  have hcore : LInv A u (Droop.defeatedCore A s cids) := by
+    refine ⟨?_, ?_, ?_, ?_, ?_⟩
+    · exact foldSetZero_wz A hA cids (transferAll_wz A hA h cids id hl.wz)
+    · show ((St.nballots _ : Int) : α) = _
+      unfold Droop.defeatedCore
+      rw [hfr.2.2.2.1, hfr.1, transferAll_nballots, transferAll_mults]; exact hl.nb
+    · unfold Droop.defeatedCore; rw [hfr.2.2.1, transferAll_quota]; exact hl.q1
+    · rw [htot]; unfold Droop.defeatedCore; rw [hfr.2.2.2.1, hfr.2.2.2.2.1, transferAll_nballots, transferAll_acts]; exact hl.low
+    · intro l a hsuf sn hsn
+      unfold Droop.defeatedCore at hsuf ⊢
+      rw [hfr.2.2.2.2.1, transferAll_acts] at hsuf
+      rw [hfr.2.2.2.1, transferAll_nballots]
+      exact hl.recl l a hsuf sn hsn
+  have hm : (Droop.defeatedCore A s cids).method = .wigm := by
+    unfold Droop.defeatedCore; rw [hfr.2.2.2.2.2, transferAll_method]; exact h.meth
+  exact ⟨hcore, hm⟩
+
 theorem LInv.transferDefeatedMany (hA : LawfulArith A) (u : α) {s : St α} (h : Inv A s) (hl : LInv A u s)
     (cids : List Nat) (verb : String) (hverb : isSTs "transfer" verb = false) (hnd : cids.Nodup)
     (hx : ∀ cid ∈ cids, ∃ x ∈ s.cands, x.cid = cid ∧ ¬ x.inScope ∧ x.st ≠ .hopeful ∧ x.vote = s.tally A cid) :
     LInv A u (Droop.transferDefeated A s cids verb) := by
   rw [transferDefeated_eq]
-  have htot := defeatedCore_total A hA h cids hnd hx
-  have hfr := foldSetZero_frame A cids (transferAll A s cids id)
-  have hcore : LInv A u (defeatedCore A s cids) := by
-    refine ⟨?_, ?_, ?_, ?_, ?_⟩
-    · exact foldSetZero_wz A hA cids (transferAll_wz A hA h cids id hl.wz)
-    · show ((St.nballots _ : Int) : α) = _
-      unfold defeatedCore
-      rw [hfr.2.2.2.1, hfr.1, transferAll_nballots, transferAll_mults]; exact hl.nb
-    · unfold defeatedCore; rw [hfr.2.2.1, transferAll_quota]; exact hl.q1
-    · rw [htot]; unfold defeatedCore; rw [hfr.2.2.2.1, hfr.2.2.2.2.1, transferAll_nballots, transferAll_acts]; exact hl.low
-    · intro l a hsuf sn hsn
-      unfold defeatedCore at hsuf ⊢
-      rw [hfr.2.2.2.2.1, transferAll_acts] at hsuf
-      rw [hfr.2.2.2.1, transferAll_nballots]
-      exact hl.recl l a hsuf sn hsn
-  have hm : (defeatedCore A s cids).method = .wigm := by
-    unfold defeatedCore; rw [hfr.2.2.2.2.2, transferAll_method]; exact h.meth
+  obtain ⟨hcore, hm⟩ := LInv.defeatedCore A hA u h hl cids hnd hx
   exact hcore.logAct A u hm _ _ _ hverb
 
 /-! ## a surplus transfer loses less than `u` per ballot that moves -/
@@ -435,13 +443,20 @@ theorem surplusCore_total (hA : LawfulArith A) (rew0 : α → α → α → α) 
   rw [hex, hsv, hx'vote, hq']
   linarith
 
-theorem LInv.transferSurplus (hA : LawfulArith A) (u : α) (hu : 0 ≤ u) (rew0 : α → α → α → α) (hlow : RewLower A u rew0)
-    {s : St α} (h : Inv A s) (hl : LInv A u s) (x : Cand α) (verb : String)
-    (hverb : isSTs "transfer" verb = true)
+/-- the state of a surplus transfer just before it is logged: everything `LInv.logAct'` asks for, the transfer counted -/
+theorem LInv.surplusCore_pre (hA : LawfulArith A) (u : α) (hu : 0 ≤ u) (rew0 : α → α → α → α) (hlow : RewLower A u rew0)
+    {s : St α} (h : Inv A s) (hl : LInv A u s) (x : Cand α)
     (hx : x ∈ s.cands) (hnh : x.st ≠ .hopeful) (hnw : x.st ≠ .withdrawn)
     (hI : x.vote = s.tally A x.cid) (hq : s.quota ≤ x.vote) :
-    LInv A u (Droop.transferSurplus A s x rew0 verb) := by
-  rw [transferSurplus_eq]
+    (Droop.surplusCore A s x rew0).method = .wigm
+    ∧ (∀ c ∈ (Droop.surplusCore A s x rew0).cands, c.st = .withdrawn → c.vote = 0)
+    ∧ (((Droop.surplusCore A s x rew0).nballots : Int) : α)
+        = ((Droop.surplusCore A s x rew0).ballots.map (fun b => ((b.mult : Int) : α))).sum
+    ∧ A.one ≤ (Droop.surplusCore A s x rew0).quota
+    ∧ RecLow A u (Droop.surplusCore A s x rew0)
+    ∧ (((Droop.surplusCore A s x rew0).nballots : Int) : α) * A.one
+        ≤ (Droop.surplusCore A s x rew0).total
+          + u * (((Droop.surplusCore A s x rew0).nballots : Int) : α) * ((nST (Droop.surplusCore A s x rew0).acts + 1 : Nat) : α) := by
   have htot := surplusCore_total A hA rew0 h x hx hnh
   have hsur : 0 ≤ x.vote - s.quota := sub_nonneg.2 hq
   have hv1 : A.one ≤ x.vote := le_trans hl.q1 hq
@@ -464,16 +479,27 @@ theorem LInv.transferSurplus (hA : LawfulArith A) (u : α) (hu : 0 ≤ u) (rew0 
     refine ⟨transferAll_nballots A s _ _, transferAll_quota A s _ _, transferAll_acts A s _ _, transferAll_method A s _ _, ?_⟩
     exact transferAll_mults A s _ _
   obtain ⟨f1, f2, f3, f4, f5⟩ := hfr
-  apply LInv.logAct' A u (f4.trans h.meth) hcands_wz (by rw [f1, f5]; exact hl.nb) (by rw [f2]; exact hl.q1)
+  refine ⟨f4.trans h.meth, hcands_wz, by rw [f1, f5]; exact hl.nb, by rw [f2]; exact hl.q1, ?_, ?_⟩
   · intro l a hsuf sn hsn
     rw [f3] at hsuf; rw [f1]
     exact hl.recl l a hsuf sn hsn
   · rw [f1, f3, htot]
-    simp only [hverb, if_true]
     have hlow0 := hl.low
     rw [← hl.nb] at hmoved
     rw [Nat.cast_add, Nat.cast_one]
     nlinarith
+
+theorem LInv.transferSurplus (hA : LawfulArith A) (u : α) (hu : 0 ≤ u) (rew0 : α → α → α → α) (hlow : RewLower A u rew0)
+    {s : St α} (h : Inv A s) (hl : LInv A u s) (x : Cand α) (verb : String)
+    (hverb : isSTs "transfer" verb = true)
+    (hx : x ∈ s.cands) (hnh : x.st ≠ .hopeful) (hnw : x.st ≠ .withdrawn)
+    (hI : x.vote = s.tally A x.cid) (hq : s.quota ≤ x.vote) :
+    LInv A u (Droop.transferSurplus A s x rew0 verb) := by
+  rw [transferSurplus_eq]
+  obtain ⟨c0, c1, c2, c3, c4, c5⟩ := LInv.surplusCore_pre A hA u hu rew0 hlow h hl x hx hnh hnw hI hq
+  apply LInv.logAct' A u c0 c1 c2 c3 c4
+  simp only [hverb, if_true]
+  exact c5
 
 /-! ## fixed-point arithmetic loses less than two units per ballot -/
 theorem lt_pdiv_add_one_mul (a b : Int) (hb : 0 < b) : a < (pdiv a b + 1) * b := by
